@@ -211,6 +211,16 @@ def lattice_cases(tier, seed):
         for ps_ in ("greens", "fastdiag"):
             for dt_ in ("float64", "float32"):
                 out.append(dict(cfg={"kind": "ns3d", "dtype": dt_, "forcing": True, "stream": True, "filter": filt, "poisson": ps_, "shape": SHAPES[3][1], "width": 3}, state="generic", velocity="generic", forcing="generic", steps=2, seed=seed))
+    # grids that are LONG along one axis (each axis in turn): blocked / slab-wise sweeps and chunked loops only show
+    # beyond their block size
+    if tier != "dev1":
+        for kind, shapes in (("ns2d", [(70, 7), (7, 70)]), ("pt2d", [(70, 7), (7, 70)]), ("ns3d", [(36, 6, 7), (6, 36, 7), (6, 7, 36)]), ("pt3dv", [(36, 6, 7), (6, 36, 7), (6, 7, 36)])):
+            for sh in shapes:
+                for dt_ in ("float64", "float32"):
+                    cfg = {"kind": kind, "dtype": dt_, "shape": sh, "params": PARAMS[0]}
+                    if kind.startswith("ns"):
+                        cfg.update(forcing=True, stream=True, width=2, poisson="fastdiag" if kind == "ns3d" else "greens")
+                    out.append(dict(cfg=cfg, state="generic", velocity="generic", forcing="generic", steps=2, seed=seed))
     return out
 
 
@@ -242,7 +252,7 @@ def run(r) -> None:
         jit_cases = [dict(c, backend="jit") for c in lattice_cases_dev1(r.seed)]
         r.run_cases("step-lattice-jit", "step", jit_cases, chunksize=6)
         r.extra["jit_traces"] = len(jit_cases)
-    r.bounds = {"deviation": 2 if r.tier == "quick" else 3, "cases": len(cases), "shapes": SHAPES, "params": PARAMS, "filters": FILTERS + ["filter_vorticity=True without a settings dictionary"], "x_ranges": X_RANGES, "initial_time": [0.0, 3.7], "argument_types": ARG_TYPES,
+    r.bounds = {"deviation": 2 if r.tier == "quick" else 3, "cases": len(cases), "shapes": SHAPES, "long_axis_shapes": "70 x 7, 7 x 70; 36 x 6 x 7 with the long axis in every position", "params": PARAMS, "filters": FILTERS + ["filter_vorticity=True without a settings dictionary"], "x_ranges": X_RANGES, "initial_time": [0.0, 3.7], "argument_types": ARG_TYPES,
                 "widths": [0, 1, 2, 3, 4], "state_patterns": simcfg.STATE_PATTERNS, "velocity_patterns": simcfg.VELOCITY_PATTERNS, "forcing_patterns": simcfg.FORCING_PATTERNS, "steps": [1, 2, "2 with the second step re-loaded with a single non-zero component", "2 with the second step from the all-zero field"]}
     r.extra["rule"] = "one state per executed time step of each (configuration, pattern, history length) tuple of the deviation-bounded lattice; every step compared cell by cell with the independent reference"
     r.assumptions = ["small-scope: field values from finite pattern alphabets on grids of ~12 cells a side", "kernels on the interpreter back end, bound to the generated code by conformance replay",
